@@ -573,7 +573,7 @@ package participle
 //@ func Build [C01 C13 C18 C15 C06]
 //@   use symsWrap(parser.lex.(*mappingLexerDef)) at exit
 //@   requires forall(k, 0, len(options), options[k] != nil)
-//@   modifies family(strct)
+//@   modifies family(strct), family(structLexer), family(lexer.PeekingLexer), family(lexer.Token)
 //@   let la int = p.useLookahead after call Definition.Symbols#1
 //@   let lx lexer.Definition = p.lex after call Definition.Symbols#1
 //@   let nm int = len(p.mappers) after call Definition.Symbols#1
@@ -655,14 +655,37 @@ package participle
 //@   ensures seqOK(s) && wfc(iface(s))
 
 // The struct-tag lexer (struct.go): assumed contracts; its own index expressions are covered by GetField below.
-//@ func (*structLexer).Peek
+// slxOK: the tag lexer of a struct with at least one grammar field, positioned in some field, with a well-formed
+// peeking lexer over that field's tag. lexStruct establishes it whenever the struct has fields (parseType checks
+// NumField() before the first Peek), Peek and Next are proved to preserve it, and nothing else writes the struct
+// lexer; the callers' side of this invariant (they stop at the first error) is assumed, not checked: the
+// precondition is marked @assumed.
+//@ pred slxOK(s *structLexer) = s != nil && s.s != nil && len(s.indexes) > 0 && s.field >= 0 && s.lexer != nil && plInv(s.lexer)
+//@ func newTagLexer
 //@   trusted
-//@   ensures result0 != nil
-//@ func (*structLexer).Next
+//@   fresh result
+//@   ensures result != nil && result.scanner != nil
+//@ func fieldLexerTag
 //@   trusted
-//@   ensures result0 != nil
-//@ func (*structLexer).Field
-//@   trusted
+//@   pure
+
+// Peek looks at the next token of the concatenated field tags without moving: it may run fresh lexers over the
+// following fields' tags but never stores them. The only write to existing memory is the Line stamp of the token.
+//@ func (*structLexer).Peek [C19]
+//@   requires @assumed slxOK(s)
+//@   modifies elems(s.lexer.tokens)
+//@   ensures result0 != nil && slxOK(s) && s.field == old(s.field) && s.lexer == old(s.lexer)
+//@   loop 1 invariant lex != nil && plInv(lex) && field >= 0 && (lex == s.lexer || (fresh(lex) && fresh(lex.tokens))) && slxOK(s) && s.field == old(s.field) && s.lexer == old(s.lexer)
+//@   loop 1 decreases len(s.indexes) - field
+
+// Next consumes one token, moving to the next field's tag when the current one is exhausted.
+//@ func (*structLexer).Next [C19]
+//@   requires @assumed slxOK(s)
+//@   modifies s.field, s.lexer, s.lexer.Checkpoint, elems(s.lexer.tokens)
+//@   ensures result0 != nil && (result1 == nil ==> slxOK(s))
+
+//@ func (*structLexer).Field [C19]
+//@   requires @assumed s != nil && s.s != nil && len(s.indexes) > 0 && s.field >= 0
 //@   pure
 //@   ensures result.Type != nil
 
@@ -675,7 +698,7 @@ package participle
 
 //@ func (*generatorContext).parseNegation [C19]
 //@   requires g != nil && g.typeNodes != nil
-//@   modifies mapof(g.typeNodes), family(strct)
+//@   modifies mapof(g.typeNodes), family(strct), family(structLexer), family(lexer.PeekingLexer), family(lexer.Token)
 //@   requires slexer != nil
 //@   ensures result1 == nil ==> result0 != nil && wfc(result0)
 //@   use wfcNegation(result0.(*negation)) at exit
@@ -685,7 +708,7 @@ package participle
 // operand as it is (C01: the node graph means what the tag says).
 //@ func (*generatorContext).parseModifier [C19 C01]
 //@   requires g != nil && g.typeNodes != nil
-//@   modifies mapof(g.typeNodes), family(strct)
+//@   modifies mapof(g.typeNodes), family(strct), family(structLexer), family(lexer.PeekingLexer), family(lexer.Token)
 //@   requires slexer != nil && (expr != nil ==> wfc(expr))
 //@   let tk lexer.TokenType = result0.Type after call (*participle.structLexer).Peek#1
 //@   ensures result1 == nil && expr != nil ==> result0 != nil && wfc(result0)
@@ -700,13 +723,13 @@ package participle
 
 //@ func (*generatorContext).parseTermNoModifiers [C19]
 //@   requires g != nil && g.typeNodes != nil
-//@   modifies mapof(g.typeNodes), family(strct)
+//@   modifies mapof(g.typeNodes), family(strct), family(structLexer), family(lexer.PeekingLexer), family(lexer.Token)
 //@   requires slexer != nil
 //@   ensures result1 == nil && result0 != nil ==> wfc(result0)
 
 //@ func (*generatorContext).parseTerm [C19]
 //@   requires g != nil && g.typeNodes != nil
-//@   modifies mapof(g.typeNodes), family(strct)
+//@   modifies mapof(g.typeNodes), family(strct), family(structLexer), family(lexer.PeekingLexer), family(lexer.Token)
 //@   requires slexer != nil
 //@   ensures result1 == nil && result0 != nil ==> wfc(result0)
 
@@ -727,7 +750,7 @@ package participle
 //@   ensures wfc(iface(h))
 //@ func (*generatorContext).parseSequence [C19]
 //@   requires g != nil && g.typeNodes != nil
-//@   modifies mapof(g.typeNodes), family(strct)
+//@   modifies mapof(g.typeNodes), family(strct), family(structLexer), family(lexer.PeekingLexer), family(lexer.Token)
 //@   requires slexer != nil
 //@   ensures result1 == nil && result0 != nil ==> wfc(result0)
 //@   use lsegRefl(head) at loop 1 entry
@@ -740,7 +763,7 @@ package participle
 
 //@ func (*generatorContext).parseDisjunction [C19]
 //@   requires g != nil && g.typeNodes != nil
-//@   modifies mapof(g.typeNodes), family(strct)
+//@   modifies mapof(g.typeNodes), family(strct), family(structLexer), family(lexer.PeekingLexer), family(lexer.Token)
 //@   requires slexer != nil
 //@   ensures result1 == nil ==> result0 != nil && wfc(result0)
 //@   requires @assumed g.Definition != nil
@@ -750,14 +773,14 @@ package participle
 
 //@ func (*generatorContext).parseCapture [C19]
 //@   requires g != nil && g.typeNodes != nil
-//@   modifies mapof(g.typeNodes), family(strct)
+//@   modifies mapof(g.typeNodes), family(strct), family(structLexer), family(lexer.PeekingLexer), family(lexer.Token)
 //@   requires slexer != nil
 //@   ensures result1 == nil ==> result0 != nil && wfc(result0)
 //@   use wfcCapture(result0.(*capture)) at exit
 
 //@ func (*generatorContext).parseReference [C19]
 //@   requires g != nil && g.typeNodes != nil
-//@   modifies mapof(g.typeNodes), family(strct)
+//@   modifies mapof(g.typeNodes), family(strct), family(structLexer), family(lexer.PeekingLexer), family(lexer.Token)
 //@   requires slexer != nil
 //@   requires @assumed g.Definition != nil
 //@   ensures result1 == nil ==> result0 != nil && wfc(result0)
@@ -765,7 +788,7 @@ package participle
 
 //@ func (*generatorContext).parseLiteral [C19]
 //@   requires g != nil && g.typeNodes != nil
-//@   modifies mapof(g.typeNodes), family(strct)
+//@   modifies mapof(g.typeNodes), family(strct), family(structLexer), family(lexer.PeekingLexer), family(lexer.Token)
 //@   requires lex != nil
 //@   requires @assumed g.Definition != nil
 //@   ensures result1 == nil ==> result0 != nil && wfc(result0)
@@ -773,35 +796,35 @@ package participle
 
 //@ func (*generatorContext).parseOptional [C19]
 //@   requires g != nil && g.typeNodes != nil
-//@   modifies mapof(g.typeNodes), family(strct)
+//@   modifies mapof(g.typeNodes), family(strct), family(structLexer), family(lexer.PeekingLexer), family(lexer.Token)
 //@   requires slexer != nil
 //@   ensures result1 == nil ==> result0 != nil && wfc(result0)
 //@   use wfcGroup(result0.(*group)) at exit
 
 //@ func (*generatorContext).parseRepetition [C19]
 //@   requires g != nil && g.typeNodes != nil
-//@   modifies mapof(g.typeNodes), family(strct)
+//@   modifies mapof(g.typeNodes), family(strct), family(structLexer), family(lexer.PeekingLexer), family(lexer.Token)
 //@   requires slexer != nil
 //@   ensures result1 == nil ==> result0 != nil && wfc(result0)
 //@   use wfcGroup(result0.(*group)) at exit
 
 //@ func (*generatorContext).parseGroup [C19]
 //@   requires g != nil && g.typeNodes != nil
-//@   modifies mapof(g.typeNodes), family(strct)
+//@   modifies mapof(g.typeNodes), family(strct), family(structLexer), family(lexer.PeekingLexer), family(lexer.Token)
 //@   requires slexer != nil
 //@   ensures result1 == nil ==> result0 != nil && wfc(result0)
 //@   use wfcGroup(result0.(*group)) at exit
 
 //@ func (*generatorContext).subparseLookaheadGroup [C19]
 //@   requires g != nil && g.typeNodes != nil
-//@   modifies mapof(g.typeNodes), family(strct)
+//@   modifies mapof(g.typeNodes), family(strct), family(structLexer), family(lexer.PeekingLexer), family(lexer.Token)
 //@   requires slexer != nil
 //@   ensures result1 == nil ==> result0 != nil && wfc(result0)
 //@   use wfcLookahead(result0.(*lookaheadGroup)) at exit
 
 //@ func (*generatorContext).subparseGroup [C19]
 //@   requires g != nil && g.typeNodes != nil
-//@   modifies mapof(g.typeNodes), family(strct)
+//@   modifies mapof(g.typeNodes), family(strct), family(structLexer), family(lexer.PeekingLexer), family(lexer.Token)
 //@   requires slexer != nil
 //@   ensures result1 == nil ==> result0 != nil && wfc(result0)
 
@@ -816,7 +839,7 @@ package participle
 //@   requires g != nil && t != nil && g.typeNodes != nil
 //@   requires @assumed forallt(k, reflect.Type, has(g.typeNodes, k) ==> g.typeNodes[k] != nil && (typeis(g.typeNodes[k], *strct) || typeis(g.typeNodes[k], *union) || typeis(g.typeNodes[k], *custom)) && (typeis(g.typeNodes[k], *strct) ==> g.typeNodes[k].(*strct) != nil))
 //@   ensures returnedError == nil ==> result0 != nil && wfc(result0)
-//@   modifies mapof(g.typeNodes), family(strct)
+//@   modifies mapof(g.typeNodes), family(strct), family(structLexer), family(lexer.PeekingLexer), family(lexer.Token)
 //@   use wfcLeaf(result0) at exit
 
 //@ func lexStruct
@@ -851,6 +874,7 @@ package participle
 //@ func (*structLexer).GetField [C19]
 //@   requires len(s.indexes) > 0 && s.s != nil && field >= 0
 //@   pure
+//@   ensures result.Type != nil
 
 // The tag lexer hands a token to textScannerTransform only when the scanner reported no error for it.
 //@ func (*tagLexer).Next [C19]
